@@ -111,7 +111,7 @@ func cmdVC(args []string) {
 		for u := range g.uncontracted {
 			fmt.Printf("   uncontracted call: %s\n", u)
 		}
-		obls := g.obls
+		obls := append(g.autoCanaries(), g.obls...)
 		if *only != "" {
 			var f []*Obligation
 			for _, o := range obls {
